@@ -97,12 +97,16 @@ func (b *SimBackend) gate(site, detail string) (error, bool) {
 
 // Get implements api.Backend.
 func (b *SimBackend) Get(path string) ([]byte, error) {
-	if err, _ := b.gate("be.Get", path); err != nil {
+	err, ca := b.gate("be.Get", path)
+	if err != nil {
 		return nil, err
 	}
 	path = norm(path)
 	b.S.Touched[path] = struct{}{}
 	d, ok := b.S.Data[path]
+	if ca {
+		b.W.Crash(b.Proc, "be.Get (after)")
+	}
 	if !ok {
 		return nil, api.ErrNotExist
 	}
@@ -147,8 +151,12 @@ func (b *SimBackend) Put(path string, data []byte) error {
 
 // ListAll implements api.Backend.
 func (b *SimBackend) ListAll() ([]string, error) {
-	if err, _ := b.gate("be.ListAll", ""); err != nil {
+	err, ca := b.gate("be.ListAll", "")
+	if err != nil {
 		return nil, err
+	}
+	if ca {
+		b.W.Crash(b.Proc, "be.ListAll (after)")
 	}
 	return b.S.Paths(), nil
 }
@@ -198,25 +206,33 @@ func (b *SimBackend) RenameNX(oldpath, newpath string) error {
 
 // Lock implements api.Backend: blocks (parks) until exclusive access.
 func (b *SimBackend) Lock() error {
-	if err, _ := b.gate("be.Lock", ""); err != nil {
+	err, ca := b.gate("be.Lock", "")
+	if err != nil {
 		return err
 	}
 	for b.S.writer != 0 || len(b.S.readers) > 0 {
 		b.W.Block(b.Proc, "be.Lock")
 	}
 	b.S.writer = b.ID
+	if ca {
+		b.W.Crash(b.Proc, "be.Lock (after)") // dies holding the lock; the kernel releases it
+	}
 	return nil
 }
 
 // RLock implements api.Backend.
 func (b *SimBackend) RLock() error {
-	if err, _ := b.gate("be.RLock", ""); err != nil {
+	err, ca := b.gate("be.RLock", "")
+	if err != nil {
 		return err
 	}
 	for b.S.writer != 0 {
 		b.W.Block(b.Proc, "be.RLock")
 	}
 	b.S.readers[b.ID]++
+	if ca {
+		b.W.Crash(b.Proc, "be.RLock (after)")
+	}
 	return nil
 }
 
